@@ -129,6 +129,12 @@ def check_terminal(text: str, tokens: list, t: str) -> bool:
 	pat = rules['x']
 	if not isinstance(pat, Pattern):
 		return False
+	# the rule set is known by construction: one terminal whose expression is the text between the delimiters
+	# (a two-character \\t \\f \\r \\n string stands for that control character)
+	codes = {'t': chr(9), 'f': chr(12), 'r': chr(13), 'n': chr(10)}
+	expected = codes[t[1]] if KIND == 'string' and len(t) == 2 and t[0] == chr(92) and t[1] in codes else t
+	if pat.expression != expected or pat.role.name != 'Terminal' or pat.comp.name != ('Equals' if KIND == 'string' else 'Regexp'):
+		return False
 	# Pattern.make(pretty(p)) gives p back (control-code restoration included)
 	again = Pattern.make(Prettier._pretty_pattern(pat))
 	if (again.expression, again.role, again.comp) != (pat.expression, pat.role, pat.comp):
